@@ -174,13 +174,18 @@ example : getIntValue true asciiDigits it.lang (spellTop itTop itScales 2300405)
 
 /-! ### Ordinals below 1000 -/
 
-/-- **C04 (German ordinals)** `erste` … `neunhundertneunundneunzigste`: every `1 ≤ n < 1000`. (The extraction regex
+/-- **C04 (German ordinals)** `erste` … `neunhundertneunundneunzigste`: every `1 ≤ n < 1000`: the value of the TOKEN LIST
+the tokeniser yields for the written ordinal is `n`.  For a simple ordinal (`zweite`, `zwanzigste`) that list is the
+ordinal word; inside a compound the tokeniser drops the ordinal ending (`hundertzweite` → `hundert`, `zwei`;
+`RTV.Props.C04TextEu.german_ordinal_ending_lost_by_tokeniser`, `de_ord_tokens_sample`), so for compounds this is the value
+of the CARDINAL stems — the ordinal reading of the ending plays no part.  (The extraction regex
 misspells `vierzigst…` as `vierziegt…`: 40th–49th of every hundred are never extracted — pipeline finding
 `de-de:ordinal:vierzig:no-entity`; `__get_int_value` on their tokens is right.) -/
 theorem german_ordinal_sub1000 (n : Nat) (h1 : 1 ≤ n) (h : n < 1000) :
     getIntValue true asciiDigits de.lang (spellOrdEu deOrd n).2 = .ok n := de_ord_all n h1 h rfl
 
-/-- **C04 (German ordinals), every `1 ≤ n < 10^6`** (`spellOrdDe`: `eintausendste`, `zweitausenderste`,
+/-- **C04 (German ordinals), every `1 ≤ n < 10^6`** — value of the token list of the written compound (cardinal stems, see
+`german_ordinal_sub1000`) (`spellOrdDe`: `eintausendste`, `zweitausenderste`,
 `einundzwanzigtausendeinhundertdreiundvierzigste`): the thousands by the structural `thousand_group`, the remainder as it
 is written (and tokenised) inside the compound by kernel evaluation. -/
 theorem german_ordinal_sub1e6 (n : Nat) (h1 : 1 ≤ n) (h : n < 1000000) :
@@ -195,7 +200,9 @@ example : (spellOrdDe 2143).1 = [122, 119, 101, 105, 116, 97, 117, 115, 101, 110
     101, 114, 116, 100, 114, 101, 105, 117, 110, 100, 118, 105, 101, 114, 122, 105, 103, 115, 116, 101] ∧
     (spellOrdDe 2143).2.length = 7 := by decide +kernel
 
-/-- **C04 (Dutch ordinals)** `eerste` … `negenhonderdnegenennegentigste` -/
+/-- **C04 (Dutch ordinals)** `eerste` … `negenhonderdnegenennegentigste`: as for German, the value of the token list the
+tokeniser yields (`honderdtweede` → `honderd`, `twee`: cardinal stems inside a compound; the tie of `.2` to the written
+form is checked against the real tokeniser by harness/lib/numordcorr.py — the Dutch tokeniser is not modelled). -/
 theorem dutch_ordinal_sub1000 (n : Nat) (h1 : 1 ≤ n) (h : n < 1000) :
     getIntValue true asciiDigits nl.lang (spellOrdEu nlOrd n).2 = .ok n := nl_ord_all n h1 h rfl
 
